@@ -42,7 +42,9 @@ def run_bins(prefix, where, cases, profile="debug", target=None):
         lines = per[b]
         res = []
         start = 0
-        # a watchdog exit (code 3) ends the process: restart after the timed-out case
+        timeouts = {}
+        # a watchdog exit (code 3) ends the process: restart after the timed-out case; after 3 cases of one
+        # (grammar, rule) that do not return, the remaining cases of that rule are not run (marked v=timeout-skipped)
         while start < len(lines):
             p = subprocess.run([os.path.join(target, profile, f"{prefix}{b}")], input="\n".join(lines[start:]) + "\n",
                                capture_output=True, text=True)
@@ -62,6 +64,19 @@ def run_bins(prefix, where, cases, profile="debug", target=None):
                         start = nxt + 1
                         continue
                 start += len(got)
+                if got[-1].endswith("v=timeout"):
+                    f = lines[start - 1].split(" ")
+                    key = (f[1], f[2])
+                    timeouts[key] = timeouts.get(key, 0) + 1
+                    if timeouts[key] >= 2:
+                        keep = lines[:start]
+                        for l in lines[start:]:
+                            g = l.split(" ")
+                            if (g[1], g[2]) == key:
+                                res.append(g[0] + " v=timeout-skipped")
+                            else:
+                                keep.append(l)
+                        lines = keep
         return res
     with concurrent.futures.ThreadPoolExecutor(NBINS) as ex:
         for res in ex.map(run, sorted(per)):
@@ -276,6 +291,20 @@ def suite_raw(tier, seed):
             for s in use:
                 for entry in ("parse_partial", "check_partial"):
                     cases.append((g["gid"], r["name"], entry, "str", 0, 0, s))
+    # sub-inputs for the raw combinators too (Span / Position forms of short inputs)
+    short = [s for s in strings("ab ", 3)] + ["aé b", "éa", "ab\n"]
+    for g in gs:
+        if g["gid"] in ("rep_misc", "leaf", "rep_s", "rep_null_o", "stackops_n"):
+            for r in g["rules"]:
+                for s in short:
+                    bs = corpus.boundaries(s)
+                    for a in bs:
+                        if a > 0:
+                            cases.append((g["gid"], r["name"], "parse_partial", "pos", a, 0, s))
+                        for b in bs:
+                            if b >= a and not (a == 0 and b == bs[-1]):
+                                cases.append((g["gid"], r["name"], "parse_partial", "span", a, b, s))
+                                cases.append((g["gid"], r["name"], "check_partial", "span", a, b, s))
     impl = run_bins("r", where, cases)
     model = run_driver(sexp, cases)
     meta = {"suite": "raw", "tier": tier, "seed": seed, "wall_s": time.time() - t0,
